@@ -36,6 +36,33 @@ var builderEntries = map[string]string{
 	"opBatch": "(*framer).writeBatchFrame", "opAuthResponse": "(*framer).writeAuthResponseFrame",
 }
 
+// builderEntriesOf resolves, for the current tree, the function in which each request opcode constant is
+// chosen for writeHeader (directly or through a wrapper): a builder that was inlined into buildFrame, renamed or
+// wrapped is still found. Falls back to the names of the pinned tree.
+func builderEntriesOf(p *Program) map[string]string {
+	out := map[string]string{}
+	p.forEachFunc(false, func(fi *FuncInfo) {
+		info := fi.Pkg.TypesInfo
+		for _, c := range callsIn(fi.Decl.Body) {
+			if !isCallTo(info, c, "(*framer).writeHeader") || len(c.Args) != 3 {
+				continue
+			}
+			for _, site := range p.effectiveArgs(fi, c, 1, 0) {
+				op := exprStr(site.Expr)
+				if _, isOp := specRequestOps[op]; isOp {
+					out[op] = site.Fn.Name
+				}
+			}
+		}
+	})
+	for op, name := range builderEntries {
+		if _, ok := out[op]; !ok {
+			out[op] = name
+		}
+	}
+	return out
+}
+
 func newWriteTracer(p *Program) *tracer {
 	return &tracer{p: p, prims: writePrims, maxPaths: 40000, inline: map[string]bool{
 		"(*framer).writeQueryParams": true, "(*framer).writeCustomPayload": true,
@@ -69,7 +96,7 @@ func c03r1(p *Program, r *Report) {
 		r.Check(seenOps[op] == 1, nil, "exactly one builder writes "+op, "one builder", fmt.Sprintf("%d builders write opcode %s (expected exactly one)", seenOps[op], op))
 	}
 	// header first, finish returned on success exits
-	for op, name := range builderEntries {
+	for op, name := range builderEntriesOf(p) {
 		fi := r.NeedFunc(name)
 		if fi == nil {
 			continue
@@ -306,7 +333,7 @@ func c03r3(p *Program, r *Report) {
 		}},
 	}
 	for _, m := range msgs {
-		name := builderEntries[m.op]
+		name := builderEntriesOf(p)[m.op]
 		fi := r.NeedFunc(name)
 		if fi == nil {
 			continue
